@@ -1038,4 +1038,6 @@ def distribution(prop, cases, outcomes):
         d['sub_second_times'] = d.get('sub_second_times', 0) + any(x % 10**6 for x in [c['bound']] + c['clock'] +
                                                                    [t[k] for t in c['tasks'] for k in ('min_start', 'start') if t[k] is not None])
         d['milestone_summaries'] = d.get('milestone_summaries', 0) + any(t['ms'] and any(u['parent'] == i for u in c['tasks']) for i, t in enumerate(c['tasks']))
+        for flag in ('lateLink', 'lateMove', 'lateSpent', 'peek', 'objAttrs', 'noStart', 'rejected', 'calEarly', 'floats'):
+            d['flag_' + flag] = d.get('flag_' + flag, 0) + bool(c.get(flag))
     return d
